@@ -180,7 +180,7 @@ CLAIMS = {
     ref='7 C03'),
  'C05': dict(
     text='Proved for the model: with reset=True or "true" the html (or exception) and the messages of a render call are the same from any two sessions '
-         'with the same message log, and the final sessions are equal up to lists.ids and spans.savedReplacements (reset_render_depends_on_nothing); '
+         'whatever (reset_render_depends_only_on_source_and_options), and the final sessions are equal outside lists.ids, spans.savedReplacements and the message log; '
          'more generally no render call, with or without reset, depends on those two scratch registers (render_ignores_scratch_registers: a two-run '
          'non-interference relation pushed through every function of the model; a top-level list and spans.render overwrite their register before '
          'anything reads it). The correspondence check runs histories that customise every kind of '
